@@ -318,6 +318,9 @@ func exerciseEntry(w *World, e iface.IPFSLogEntry, honest iface.IPFSLogEntry) {
 	sl := []iface.IPFSLogEntry{e, honest, e}
 	sorting.Sort(sorting.NoZeroes(sorting.LastWriteWins), sl, false)
 	_ = entry.FindHeads(entry.NewOrderedMapFromEntries(sl))
+	// re-publishing what was read (another store, the default codec): may fail, must not panic
+	_, _ = entry.ToMultihashWithIO(w.ctx, e, NewStore(), nil, defaultIO())
+	_, _ = entry.ToMultihashWithIO(w.ctx, e, NewStore(), &iface.CreateEntryOptions{PreSigned: true}, w.IO)
 }
 
 func RunC12(r *Run) {
